@@ -11,3 +11,12 @@ mod c18_event_id;
 
 #[cfg(all(kani, feature = "c02"))]
 mod c02_predicates;
+
+#[cfg(all(kani, feature = "c08"))]
+mod c08_pruning;
+
+#[cfg(all(kani, feature = "c09"))]
+mod c09_aggregates;
+
+#[cfg(all(kani, feature = "c10"))]
+mod c10_order;
